@@ -1524,6 +1524,11 @@ impl ProtocolState {
             return None;
         }
 
+        // a partially-encoded operation must continue to be written as soon as the socket is free
+        if self.current_operation.is_some() {
+            return Some(self.current_time);
+        }
+
         if !self.high_priority_operation_queue.is_empty() {
             return Some(self.current_time);
         }
